@@ -201,11 +201,14 @@ def check_model(inv, specs, trace, oc, out_v, label=None):
                 kind = 'class' if d.is_struct else 'enum'
                 if '--objc' in args:
                     continue
-                if decl[(kind, d.name)] != 1:
-                    out_v.append(viol('swift-type-declared-once:%s' % kind, '%s %s.%s declared %d times' % (kind, nsn, d.name, decl[(kind, d.name)]), inputs))
-                if decl[('class', d.name + 'Serializer')] != 1:
-                    out_v.append(viol('swift-serializer-declared-once', 'serializer of %s.%s declared %d times' % (nsn, d.name, decl[('class', d.name + 'Serializer')]), inputs))
+                # types are nested in the class of their namespace, which is one file: the same name may recur in another namespace
                 code = codes.get(pascal(nsn) + '.swift', '')
+                ndecl = len(re.findall(r'\b%s\s+%s\b' % (kind, re.escape(d.name)), code))
+                nser = len(re.findall(r'\bclass\s+%sSerializer\b' % re.escape(d.name), code))
+                if ndecl != 1:
+                    out_v.append(viol('swift-type-declared-once:%s' % kind, '%s %s.%s declared %d times' % (kind, nsn, d.name, ndecl), inputs))
+                if nser != 1:
+                    out_v.append(viol('swift-serializer-declared-once', 'serializer of %s.%s declared %d times' % (nsn, d.name, nser), inputs))
                 for f in d.members:
                     if d.is_struct:
                         if not re.search(r'\b(?:let|var)\s+%s\s*:' % re.escape(f.name), code):
@@ -305,15 +308,16 @@ SHAPES = ['Int32', 'String?', 'List(String)', 'List(String?)', 'Map(String, Int3
           'List(List(Plain))', 'Map(String, Map(String, Plain))', 'List(Map(String, List(Plain)))', 'Map(String, List(Uni))', 'List(Plain?)', 'Map(String, List(other.Fo))',
           'Plain', 'Plain?', 'Tree', 'Tree?', 'List(Tree)', 'Map(String, Tree)', 'Uni', 'Uni?', 'List(Uni)', 'Map(String, Uni)', 'Alp', 'List(Alp)', 'Map(String, Alp)',
           'Bytes', 'Timestamp("%Y")', 'Float64', 'Boolean', 'UInt64', 'other.Fo', 'List(other.Fo)', 'Map(String, other.Fo)']
-DEFAULTS = [('Int32', '3'), ('String', '"s"'), ('Boolean', 'true'), ('Float64', '1.5'), ('UInt64', '7'), ('Uni', 'va'), ('Bytes', '"YWJj"'), ('Timestamp("%Y")', '"2000"')]
+DEFAULTS = [('Int32', '3'), ('String', '"s"'), ('String', '"a b \\"q\\""'), ('Boolean', 'true'), ('Float64', '1.5'), ('UInt64', '7'), ('Uni', 'va'), ('Alu', 'va'), ('other.Afu', 'fa'),
+            ('Bytes', '"YWJj"'), ('Timestamp("%Y")', '"2000"')]
 
 
 def shape_specs():
     """One small spec per (shape, position): field, tag, route argument/result/error; defaults; namespaces that hold only routes / aliases."""
-    base_other = ('other.stone', 'namespace other\n\nstruct Fo\n    x Int32\n')
+    base_other = ('other.stone', 'namespace other\n\nstruct Fo\n    x Int32\n\nunion Fu\n    fa\n    fb\n\nalias Afu = Fu\n')
     common = 'namespace sh\n\nimport other\n\nstruct Plain\n    a Int32\n\nstruct Tree\n    union\n        lf Lf\n    t Int32\n\nstruct Lf extends Tree\n    l Int32\n\n' \
-             'union Uni\n    va\n    vb String\n\nalias Alp = Plain\n\n'
-    base_types = [('other', T('Fo', True, [Mem('x')])), ('sh', T('Plain', True, [Mem('a')])), ('sh', T('Tree', True, [Mem('t')])), ('sh', T('Lf', True, [Mem('l')])),
+             'union Uni\n    va\n    vb String\n\nalias Alp = Plain\n\nalias Alu = Uni\n\n'
+    base_types = [('other', T('Fo', True, [Mem('x')])), ('other', T('Fu', False, [Mem('fa'), Mem('fb')])), ('sh', T('Plain', True, [Mem('a')])), ('sh', T('Tree', True, [Mem('t')])), ('sh', T('Lf', True, [Mem('l')])),
                   ('sh', T('Uni', False, [Mem('va'), Mem('vb')]))]
     nss = ['other', 'sh']
     out = []
